@@ -38,14 +38,19 @@ def known_truth(x):
     return None
 
 
+def _is(x, b):
+    """x is the constant True / False itself (C(1) == C(True) as tuples, but `a and 1` is not `a`)"""
+    return x[0] == 'const' and x[1] is b
+
+
 def AND(*xs):
     """`a and b and ...` (short-circuit: nothing after a literal falsy operand is evaluated)"""
     out = []
     for i, x in enumerate(xs):
         kt = known_truth(x)
-        if x == TRUE or (kt is True and i < len(xs) - 1):
+        if _is(x, True) or (kt is True and i < len(xs) - 1):
             continue
-        if x == FALSE:
+        if _is(x, False):
             return FALSE
         if kt is False:
             out.append(x)
@@ -66,9 +71,9 @@ def OR(*xs):
     out = []
     for i, x in enumerate(xs):
         kt = known_truth(x)
-        if x == FALSE or (kt is False and i < len(xs) - 1):
+        if _is(x, False) or (kt is False and i < len(xs) - 1):
             continue
-        if x == TRUE:
+        if _is(x, True):
             return TRUE
         if kt is True:
             out.append(x)
@@ -333,6 +338,8 @@ def simp1(t):
         if op == 'Add' and a[0] == b[0] and a[0] in ('list', 'tuple') and is_literal_seq(a) and is_literal_seq(b):
             return (a[0], a[1] + b[1])
         return None
+    if k == 'attr' and t[2] == 'name' and is_enum_member(t[1]):
+        return C(t[1][2])                     # Enum member .name
     if k == 'idx' and t[1][0] == 'ite' and (is_literal_seq(t[1][2]) or t[1][2][0] == 'ite') and (is_literal_seq(t[1][3]) or t[1][3][0] == 'ite') \
             and t[2][0] == 'const':
         return simp(('ite', t[1][1], ('idx', t[1][2], t[2]), ('idx', t[1][3], t[2])))
@@ -371,6 +378,8 @@ def simp1(t):
                 return ('attr', args[0], f[2][0][1])               # attrgetter('a')(x)  is  x.a
             if gname == 'itemgetter':
                 return simp(('idx', args[0], f[2][0])) or ('idx', args[0], f[2][0])
+        if f[0] == 'attr' and f[2] in ('lower', 'upper', 'strip', 'title', 'capitalize') and not args and f[1][0] == 'const' and isinstance(f[1][1], str) and not (len(t) > 3 and t[3]):
+            return C(getattr(f[1][1], f[2])())
         if f[0] == 'attr' and f[2] == 'get' and f[1][0] == 'dict' and len(args) in (1, 2):
             ki = known_value(args[0])
             if ki is not None and all(known_value(kk) is not None for kk, _ in f[1][1]):
